@@ -216,10 +216,8 @@ func (s *shaper) slice(v ssa.Value) shape {
 	case *ssa.Phi:
 		return shape{{Kind: bOpaque, N: -1, Desc: "loop/phi"}}
 	case *ssa.Slice:
-		if x.Low == nil && x.High == nil {
-			if al, ok := x.X.(*ssa.Alloc); ok {
-				return s.arrayLit(al)
-			}
+		if al, ok := x.X.(*ssa.Alloc); ok && sliceIsWholeArray(x, al) {
+			return s.arrayLit(al)
 		}
 		return shape{{Kind: bOpaque, N: -1, Desc: "subslice"}}
 	case *ssa.MakeSlice:
@@ -774,4 +772,25 @@ func appendUint(cc *ssa.CallCommon) (ssa.Value, shape, bool) {
 		out = append(out, bElem{Kind: bField, V: v, Shift: sh, BE: be})
 	}
 	return args[0], out, true
+}
+
+// sliceIsWholeArray: x is arr[:] or arr[0:n] / arr[:n:n] with n the array's length (the lowering of
+// a small constant make([]byte, n)).
+func sliceIsWholeArray(x *ssa.Slice, al *ssa.Alloc) bool {
+	pt, ok := al.Type().Underlying().(*types.Pointer)
+	if !ok {
+		return false
+	}
+	arr, ok := pt.Elem().Underlying().(*types.Array)
+	if !ok {
+		return false
+	}
+	isK := func(v ssa.Value, want int64) bool {
+		if v == nil {
+			return true
+		}
+		k, ok := v.(*ssa.Const)
+		return ok && k.Value != nil && k.Value.Kind() == constant.Int && k.Int64() == want
+	}
+	return isK(x.Low, 0) && isK(x.High, arr.Len()) && isK(x.Max, arr.Len())
 }
